@@ -5,6 +5,7 @@ From Coq Require Import List Bool ZArith.
 From Coq Require Import Permutation.
 From GV Require Import Base.Outcome Base.AMap Model.GState Model.Creation Spec.AGraph Spec.History.
 From GV Require Import Proofs.SpecOpsOk Proofs.WFDefs Proofs.Refine Proofs.HistoryOk.
+From GV Require Import Proofs.HistoryRefine.
 Import ListNotations.
 
 Section C01.
@@ -146,6 +147,27 @@ Section C01.
   Theorem C01_model_new_from_is_history : forall ns es s (g : gstate),
     new_from_nodes_and_edges teqb tltb ns es s = Ok g -> reachable teqb tltb s g.
   Proof. exact (new_from_reachable teqb tltb teqb_spec). Qed.
+  (* ---- whole histories: model and specification in lockstep ----
+     For every sequence of add_node / add_nodes / add_edge / add_edges calls from any coherent
+     state [g] representing the abstract graph [a] (Rep: WF, same specs, same node list, same edge
+     multiset): the outcomes agree call by call and the final states are again related. *)
+  Theorem C01_history_refines : forall ms (g : gstate) (a : agraph),
+    Rep teqb tltb g a ->
+    snd (run_outs teqb tltb g ms) = snd (spec_run_outs teqb tltb a ms) /\
+    Rep teqb tltb (fst (run_outs teqb tltb g ms)) (fst (spec_run_outs teqb tltb a ms)).
+  Proof. exact (history_refines teqb tltb teqb_spec tltb_asym tltb_total). Qed.
+
+  (* from new(specs), what a caller of the API sees: every call returns exactly the outcome the
+     policy specification dictates (never a panic), and the graph held afterwards has the specs it was
+     created with, the node list and the edge multiset of the specification, and is coherent *)
+  Theorem C01_history_from_new : forall s ms,
+    let g := fst (run_outs teqb tltb (new s) ms) in
+    let a := fst (spec_run_outs teqb tltb (a_new s) ms) in
+    snd (run_outs teqb tltb (new s) ms) = snd (spec_run_outs teqb tltb (a_new s) ms) /\
+    WF g /\ sp g = s /\ nodes_vec g = a_nodes a /\
+    Permutation (flat_map snd (edges g)) (a_edges a) /\
+    Forall (fun r => is_panic r = false /\ is_fuel r = false) (snd (run_outs teqb tltb (new s) ms)).
+  Proof. exact (history_from_new teqb tltb teqb_spec tltb_asym tltb_total). Qed.
 End C01.
 
 (* non-vacuity: the hypotheses on the name order are met by integers, and a coherent
